@@ -227,6 +227,11 @@ pub fn batch_b() -> Batch {
     }
 }
 
+/// One row, one short column: smaller than every file a workload writes.
+pub fn batch_small() -> Batch {
+    Batch::one(TableBatch::new("t", 1).col("id", vec![ri(9)]))
+}
+
 fn okind<T>(r: &Outcome<T>) -> &'static str {
     match r {
         Outcome::Ok(_) => "ok",
@@ -414,10 +419,31 @@ pub fn run_workload(case: &CrashCase) -> CrashOutcome {
         if matches!(case.ops[snap.op_index], WOp::IngestA | WOp::IngestB) {
             allowed.push(refs[base + 1].clone());
         }
-        let r = eval_state(&snap.tree, &allowed, &case.opts, &mut out, None);
+        let mut r = eval_state(&snap.tree, &allowed, &case.opts, &mut out, None, false);
+        let mut label = snap.label.clone();
+        if r.is_ok() {
+            // the same state reached by a history that crashed once more in the past: every staging
+            // file is a leftover that is longer than what will be written under its name next, and a
+            // stale staging file of the catalogue is lying around (recovery never removes it)
+            let mut stale = snap.tree.clone();
+            let garbage = vec![0xA5u8; 8192];
+            for (name, data) in stale.iter_mut() {
+                if name.ends_with("..INCOMPLETE") {
+                    data.extend_from_slice(&garbage);
+                }
+            }
+            stale.entry("meta..INCOMPLETE".to_string()).or_insert_with(|| garbage.clone());
+            if seen.insert((tree_hash(&stale), snap.op_index)) {
+                out.crash_states += 1;
+                out.states.push(tree_hash(&stale));
+                r = eval_state(&stale, &allowed, &case.opts, &mut out, None, true);
+                label = format!("{}:stale-staging-files", snap.label);
+                out.labels.insert("stale-staging-files".to_string());
+            }
+        }
         if let Err((sig, what, nested)) = r {
             let v = mk(
-                format!("crash:{}:{}", snap.label, sig),
+                format!("crash:{}:{}", label, sig),
                 format!(
                     "crash at effect #{} ({}) of workload {:?}: {}",
                     si, snap.label, case.ops, what
@@ -450,6 +476,7 @@ fn eval_state(
     opts: &DbOpts,
     out: &mut CrashOutcome,
     only_nested: Option<usize>,
+    skip_nested: bool,
 ) -> Result<(), (String, String, Option<usize>)> {
     let dir = fresh_dir();
     write_tree(&dir, tree);
@@ -503,7 +530,48 @@ fn eval_state(
         }
     };
     if only_nested.is_none() {
-        // the recovered database must keep working: flush, then clean restart, same content
+        // the recovered database must keep working. First a request that is *smaller* than anything
+        // written before (whatever a crash left behind under the name of the next log segment must not
+        // leak into it), acknowledged, then a clean restart: chosen content + that request.
+        let mut after = allowed[chosen].clone();
+        let small = batch_small();
+        after.apply(&small);
+        out.transitions += 2;
+        let r = db.ingest_batch(&small, IngestPath::Wire);
+        if !matches!(r, Outcome::Ok(())) {
+            let panics = take_panics();
+            return fail(
+                db,
+                format!("post-recovery-ingest:{}:{}", okind(&r), panics.first().map(panic_site).unwrap_or_default()),
+                format!("ingestion after recovery {}; panics {:?}", r.describe(), panics),
+                None,
+            );
+        }
+        let r = db.restart();
+        if !matches!(r, Outcome::Ok(())) {
+            let panics = take_panics();
+            return fail(
+                db,
+                format!("post-recovery-ingest-restart:{}:{}", okind(&r), panics.first().map(panic_site).unwrap_or_default()),
+                format!("restart after recovery + one acknowledged request {}; panics {:?}", r.describe(), panics),
+                None,
+            );
+        }
+        match read_content(&mut db, &mut out.transitions) {
+            Ok(c2) => {
+                if let Some(why) = matches_ref(&c2, &after) {
+                    return fail(
+                        db,
+                        "post-recovery-ingest:content".into(),
+                        format!("after recovery, one more acknowledged request and a clean restart the content is not recovered content + that request: {}; got {:?}", why, c2),
+                        None,
+                    );
+                }
+            }
+            Err((sig, what)) => return fail(db, format!("post-recovery-ingest-read:{}", sig), what, None),
+        }
+        let allowed_after = after;
+        // then flush, clean restart, same content
         out.transitions += 2;
         let r = db.flush();
         if !matches!(r, Outcome::Ok(())) {
@@ -527,7 +595,7 @@ fn eval_state(
         }
         match read_content(&mut db, &mut out.transitions) {
             Ok(c2) => {
-                if matches_ref(&c2, &allowed[chosen]).is_some() {
+                if matches_ref(&c2, &allowed_after).is_some() {
                     return fail(
                         db,
                         "post-recovery:content-changed".into(),
@@ -543,6 +611,9 @@ fn eval_state(
     // second generation: crash again during / right after the recovery
     let mut seen = BTreeSet::new();
     for (ni, n) in nested.iter().enumerate() {
+        if skip_nested {
+            break;
+        }
         if let Some(only) = only_nested {
             if ni != only {
                 continue;
